@@ -28,7 +28,9 @@ CountingIO = TS.CountingIO
 
 
 def shards(tier, seed):
-    return list(range(len(TS.type_space(tier)))) + ["epath-limits", "zero-width"]
+    n = len(TS.type_space(tier))
+    # every type once more in an interpreter started with -O: refusing a bad value must not rest on assert statements
+    return list(range(n)) + ["epath-limits", "zero-width"] + [("@", i, "python-O") for i in range(n)] + [("@", "epath-limits", "python-O")]
 
 
 def check_zero_width(rep):
@@ -277,6 +279,33 @@ def check_node(rep, node, tier, idx):
                 b = blame_buf(node, buf)
                 rep.violation(f"{verdict[0]}/{b.cls}", f"{node.label}.decode: {verdict[1]}",
                               {"kind": "buffer", "type_index": idx, "tier": tier, "buffer": buf})
+        if len(seen) <= 3:
+            # (c) the same bytes handed over in another kind of buffer: a stream that is not a BytesIO decodes like one; containers the
+            # decoder does not take (bytearray, memoryview, None) are refused with DataError like any other bad argument - never a foreign exception
+            import io
+            from pycomm3.exceptions import DataError as DE
+
+            for bname, buf in (("full", enc), ("half", enc[: len(enc) // 2]), ("empty", b"")):
+                for kname, mk in (("buffered-reader", lambda b: io.BufferedReader(io.BytesIO(b))), ("bytearray", bytearray), ("memoryview", memoryview), ("none", lambda b: None)):
+                    try:
+                        got = ("ok", node.decode(mk(buf)))
+                    except DE:
+                        got = ("dataerror",)
+                    except BudgetExceeded:
+                        got = ("hang",)
+                    except Exception as e:  # noqa
+                        got = ("foreign", type(e).__name__, str(e)[:60])
+                    want = ref_decode(node, buf)
+                    prob = None
+                    if got[0] in ("foreign", "hang"):
+                        prob = ("decode-foreign-exception", f"{got!r:.100}")
+                    elif got[0] == "ok" and (want[0] != "ok" or not TS.same_value(tuple(got[1]) if node.label == "STRINGI" and isinstance(got[1], (list, tuple)) else got[1], tuple(want[1]) if node.label == "STRINGI" else want[1])):
+                        prob = ("decode-silent" if want[0] != "ok" else "decode-wrong-value", f"returned {got[1]!r:.80}, reference {want!r:.80}")
+                    elif kname == "buffered-reader" and want[0] == "ok" and got[0] != "ok":
+                        prob = ("decode-rejects-valid", f"{got[0]} although the bytes are a valid encoding of {want[1]!r:.60}")
+                    rep.case((node.label, "bufkind", kname, bname, enc), outcome=f"bufkind:{kname}:{got[0]}" if not prob else prob[0])
+                    if prob:
+                        rep.violation(f"{prob[0]}/buffer-kind/{kname}", f"{node.label}.decode({kname} holding {buf.hex()}): {prob[1]}", {"kind": "bufkind", "type_index": idx, "tier": tier})
         if not sampled:
             rep.sample({"type": node.label, "encoding": enc.hex(), "buffers_tried": len(bufs)})
             sampled = True
@@ -311,6 +340,13 @@ def replay(r):
         return not rep.violations
     node = TS.type_space(r["tier"])[r["type_index"]]
     print("type:", node.label)
+    if r["kind"] == "bufkind":
+        rep = Report()
+        check_node(rep, node, r["tier"], r["type_index"])
+        for s_, vs in rep.violations.items():
+            if "/buffer-kind/" in s_:
+                print("  violates:", s_, "::", vs[0].msg[:300])
+        return not any("/buffer-kind/" in s_ for s_ in rep.violations)
     if r["kind"] == "invalid":
         bad = node.invalid_values(r["tier"])[r["bad_index"]]
         print("value:", repr(bad)[:300])
